@@ -159,6 +159,11 @@ class World:
         res = StepResult(op)
         m = self.model
         kind = op[0]
+        # optional trailing ('kw', (name, value), ...) element: extra keyword arguments (e.g. do_fsync=False)
+        kw = {}
+        if len(op) > 1 and isinstance(op[-1], (tuple, list)) and len(op[-1]) > 0 and op[-1][0] == 'kw':
+            kw = {k: v for k, v in op[-1][1:]}
+            op = tuple(op[:-1])
         try:
             if kind == 'add':
                 r = self.h.add_object(m.universe[op[1]])
@@ -175,7 +180,7 @@ class World:
             elif kind == 'topack':
                 _, batch, compress, no_holes, twice = op
                 r = self.h.add_objects_to_pack([m.universe[i] for i in batch], compress=compress,
-                                               no_holes=no_holes, no_holes_read_twice=twice)
+                                               no_holes=no_holes, no_holes_read_twice=twice, **kw)
                 res.retval = r
                 exp = [m.keys[i] for i in batch]
                 if r != exp:
@@ -189,7 +194,7 @@ class World:
                 else:
                     streams = [io.BytesIO(m.universe[i]) for i in batch]
                 r = self.h.add_streamed_objects_to_pack(streams, compress=compress, open_streams=open_streams,
-                                                        no_holes=no_holes, no_holes_read_twice=twice)
+                                                        no_holes=no_holes, no_holes_read_twice=twice, **kw)
                 res.retval = r
                 exp = [m.keys[i] for i in batch]
                 if r != exp:
@@ -198,7 +203,7 @@ class World:
             elif kind == 'sotopack':
                 _, i, compress, no_holes, twice = op
                 r = self.h.add_streamed_object_to_pack(io.BytesIO(m.universe[i]), compress=compress,
-                                                       no_holes=no_holes, no_holes_read_twice=twice)
+                                                       no_holes=no_holes, no_holes_read_twice=twice, **kw)
                 res.retval = r
                 if r != m.keys[i]:
                     res.fail('return-key', f'add_streamed_object_to_pack returned {r}, expected {m.keys[i]}')
@@ -207,7 +212,7 @@ class World:
                 _, mode, per_pack, validate = op
                 newly = m.loose - m.packed
                 self.h.pack_all_loose(compress=_MODES[mode], clean_loose_per_pack=per_pack,
-                                      validate_objects=validate)
+                                      validate_objects=validate, **kw)
                 m.packed |= m.loose
                 if per_pack:
                     m.loose -= newly
@@ -244,7 +249,7 @@ class World:
                 src = self.source(srckind)
                 src_model_keys = [H(u, src.hash_type) for u in m.universe]
                 req = [H(ABSENT, src.hash_type) if i == ABSENT_IDX else src_model_keys[i] for i in idxs]
-                mapping = self.h.import_objects(req, src, compress=compress, target_memory_bytes=budget)
+                mapping = self.h.import_objects(req, src, compress=compress, target_memory_bytes=budget, **kw)
                 res.retval = mapping
                 same = srckind == 'same'
                 for i in set(idxs):
